@@ -48,6 +48,24 @@ def describe_model(mdl):
     return {k: v for k, v in mdl.items() if k.startswith('i!')}
 
 
+def per_mode_multiple(val, vecs):
+    if val == vecs:
+        return True
+    if isinstance(val, tuple) and len(val) == 3 and val[0] in ('*', '/'):
+        a, b = val[1], val[2]
+        if a == vecs:
+            other = b
+        elif b == vecs and val[0] == '*':
+            other = a
+        else:
+            return False
+        # a row vector (newaxis in front) or a scalar
+        return (isinstance(other, tuple) and other[:2] == ('newaxis', (0,))) or isinstance(other, str)
+    if isinstance(val, tuple) and len(val) == 4 and val[0] in ('*', '/') and val[1] in ('std', 'swap') and val[2] == vecs:
+        return True        # array (op) scalar
+    return False
+
+
 def analyse_paths(led, it, log_of, res, func, tag, kterm, kgterm, want_kwargs, dense_fn, sparse_fn, replay=None):
     for path, out in res:
         name = '%s[%s]' % (func, tag)
@@ -91,12 +109,12 @@ def analyse_paths(led, it, log_of, res, func, tag, kterm, kgterm, want_kwargs, d
             t = getattr(eigvecs, 'term', None)
             if removed:
                 ok = (isinstance(t, tuple) and t[0] == 'store' and t[1] == ('zeros',) and t[2] == (('take', ('used_cols', kterm)), 'all')
-                      and (t[3] == ('eigvecs', cid) or (isinstance(t[3], tuple) and t[3][0] == 'index' and t[3][1] == ('eigvecs', cid) and t[3][2][0] == 'all')))
+                      and (per_mode_multiple(t[3], ('eigvecs', cid)) or (isinstance(t[3], tuple) and t[3][0] == 'index' and t[3][1] == ('eigvecs', cid) and t[3][2][0] == 'all')))
                 if not ok:
                     probs.append('modes are %r, expected zeros with the solver modes scattered into the rows of the non-null columns of K' % (t,))
             else:
-                if t != ('eigvecs', cid):
-                    probs.append('modes are %r, expected the solver modes' % (t,))
+                if not per_mode_multiple(t, ('eigvecs', cid)):
+                    probs.append('modes are %r, expected the solver modes (up to a factor per mode)' % (t,))
         if probs:
             led.fail(name + '/post', func, {'differences': probs}, signature=';'.join(probs)[:150], replay=replay(None) if replay else None)
         else:
